@@ -110,8 +110,7 @@ def check_f_call(ca, want_args):
     return once, args_ok, (calls[0] if calls else None)
 
 
-def check_generate(ctx, cfg, key, boxed):
-    rule = "C08.G"
+def check_generate(ctx, cfg, key, boxed, rule="C08.G"):
     b = ctx.db(cfg).get(key)
     if b is None:
         if not boxed:
@@ -317,6 +316,26 @@ def cursor_reads(ctx, cfg, an, call, cv, owners):
     return out
 
 
+def pipelines_only(ctx, cfg, key, an, judged_fn, unwrap=False):
+    """The body's results come from the judged pipelines and from nowhere else: on every return path of the tree-shaped body the value returned
+    is the result of a call to `judged_fn` made at one of the sites that were judged (a merged return value would hide which code produced it),
+    and the caller's function is never invoked by the body itself - only by the pipelines' closures. -> list of problems"""
+    at_ = ctx.analysis_inl(cfg, key, split=True)
+    js = [c for c in at_.calls if c.fn in judged_fn]
+    sites = {c.at for c in an.calls if c.fn in judged_fn}
+    def from_judged(v):
+        return any(v == c.ret or (unwrap and v == ("V", "proj", ("proj", c.ret, (("v", 0), 0)))) for c in js)
+    out = []
+    if not at_.returns or not all(from_judged(r["val"]) for r in at_.returns):
+        out.append("a return path of the body does not return the result of a judged pipeline")
+    if not all(c.at in sites for c in js):
+        out.append("a pipeline of the expanded body was not judged")
+    direct = [c.at for c in an.calls if c.fn in ("core::ops::FnMut::call_mut", "core::ops::FnOnce::call_once", "core::ops::Fn::call")]
+    if direct:
+        out.append("the body calls the caller's function itself (at %s), outside the judged pipelines" % direct)
+    return out
+
+
 def check_map_fold(ctx, cfg):
     rule = "C08.M"
     db = ctx.db(cfg)
@@ -365,8 +384,9 @@ def check_map_fold(ctx, cfg):
             ok = ok and good
             dets.append(det_)
         others = [c.fn for c in an.calls if c.fn.startswith("core::iter::") and c.fn.split("::")[-1] in ("fold", "rfold", "for_each", "try_fold", "collect")]
-        ok = ok and not others and all(any(r["val"] == f.ret for f in fi) or r["val"][0] == "V" for r in an.returns)
-        ctx.ob(rule, key, ok, "; ".join(dets) if dets else "no from_iter pipeline found", at=b["at"], cfg=cfg)
+        probs = pipelines_only(ctx, cfg, key, an, ("core::iter::FromIterator::from_iter",))
+        ok = ok and not others and not probs
+        ctx.ob(rule, key, ok, "; ".join(dets + probs) if (dets or probs) else "no from_iter pipeline found", at=b["at"], cfg=cfg)
         n += 1
     key = FS + "fold"
     b = db.get(key)
@@ -404,8 +424,9 @@ def check_map_fold(ctx, cfg):
             good = src_ok and init == ("V", "arg", 2) and c_ok and not bad_adaptors(it_)
             ok = ok and good
             dets.append("fold(iter over the whole source array (forward), init, cl): %s; init passed through: %s; closure = f(acc, read(slot)) once: %s" % (src_ok, init == ("V", "arg", 2), c_ok))
-        ok = ok and all(any(r["val"] == f.ret or r["val"] == ("V", "proj", ("proj", f.ret, (("v", 0), 0))) for f in fo) or r["val"][0] == "V" for r in an.returns)
-        ctx.ob(rule, key, ok, "; ".join(dets) if dets else "no fold found", at=b["at"], cfg=cfg)
+        probs = pipelines_only(ctx, cfg, key, an, tuple(sorted({f.fn for f in fo})), unwrap=True)
+        ok = ok and not probs
+        ctx.ob(rule, key, ok, "; ".join(dets + probs) if (dets or probs) else "no fold found", at=b["at"], cfg=cfg)
         n += 1
     return n
 
@@ -508,8 +529,8 @@ def check_zip_body(ctx, cfg, key, branches):
                     dets[-1] = "counting form over 0..N: the %s side(s) moved out by their consumers' own cursors (made from the right operands, cursor 0 at the start), the other side zipped with the range: %s; closure calls f(left, right) exactly once with the paired items: %s" % (
                         "/".join(k for (k, _v) in (left, right) if k == "slice"), sides2, ok)
         ok_all = ok_all and ok
-    rets = all(any(r["val"] == fi.ret for fi in fis) or r["val"][0] == "V" for r in an.returns)
-    ctx.ob(rule, key, ok_all and rets, "; ".join(dets) if dets else "no from_iter pipeline found", at=b["at"], cfg=cfg)
+    probs = pipelines_only(ctx, cfg, key, an, ("core::iter::FromIterator::from_iter",))
+    ctx.ob(rule, key, ok_all and not probs, "; ".join(dets + probs) if (dets or probs) else "no from_iter pipeline found", at=b["at"], cfg=cfg)
     ctx.sample({"rule": rule, "fn": key, "cfg": cfg, "detail": dets})
     return 1
 
@@ -668,8 +689,7 @@ def collected_defaults(ctx, cfg, an, pc, N_, T_):
     return bool(chain), bool(g_ok)
 
 
-def check_default_clone(ctx, cfg):
-    rule = "C08.D"
+def check_default_clone(ctx, cfg, rule="C08.D", only_default=False):
     key = "<GenericArray<$0,$1> as core::default::Default>::default"
     b = ctx.body(cfg, key, rule)
     if b is not None:
@@ -692,6 +712,8 @@ def check_default_clone(ctx, cfg):
                 ok, c_ok = cd
                 det = "Default = from_iter(repeat_with(T::default).take(N)): chain %s, generator is T::default: %s" % cd
         ctx.ob(rule, key, ok and c_ok, det, at=b["at"], cfg=cfg)
+    if only_default:
+        return
     key = "<GenericArray<$0,$1> as core::clone::Clone>::clone"
     b = ctx.body(cfg, key, rule)
     if b is not None:
@@ -751,7 +773,7 @@ def check(ctx):
     ctx.trusted = ["core: slice::Iter/IterMut, Enumerate, Zip, Map yield in ascending index order; for_each/fold/from_iter consume every item once, in order",
                    "parametricity of the generic bodies (rustc type checking): results can only come from f and go into the output"]
     ctx.assumptions = ["C07.Z: from_iter stores the i-th produced item in slot i"]
-    cfgs = ["F0", "F1"] if ctx.tier == "quick" else ["F0", "F1", "F2"]
+    cfgs = ["F0", "F1", "F1N"] if ctx.tier == "quick" else ["F0", "F1", "F1N", "F2", "F0N", "F2N"]
     ctx.need(*cfgs)
     A1, A2 = ("V", "arg", 1), ("V", "arg", 2)
     for cfg in cfgs:
